@@ -6,6 +6,7 @@ package main
 // constants are merged into a membership atom (the `case A, B:` idiom).
 
 import (
+	"go/types"
 	"fmt"
 	"go/constant"
 	"go/token"
@@ -354,12 +355,29 @@ func expandAtom(v ssa.Value, pol bool, depth int) []Fact {
 			out = append(out, expandAtom(x.X, !pol, depth+1)...)
 		}
 	case *ssa.BinOp:
+		// `b == false`, `b != true`, ...: the truth of the boolean operand
+		if x.Op == token.EQL || x.Op == token.NEQ {
+			for _, pr := range [][2]ssa.Value{{x.X, x.Y}, {x.Y, x.X}} {
+				if k, ok := pr[1].(*ssa.Const); ok && k.Value != nil && k.Value.Kind() == constant.Bool {
+					p := constant.BoolVal(k.Value) == (x.Op == token.EQL)
+					if !pol {
+						p = !p
+					}
+					out = append(out, expandAtom(pr[0], p, depth+1)...)
+				}
+			}
+		}
 		if isCmp(x.Op) {
 			op := x.Op
 			if !pol {
 				op = negOp(op)
 			}
 			out = append(out, Fact{Kind: "cmp", X: x.X, Op: op, Y: x.Y})
+			// len(s) == 0 / != 0 / > 0 on a string is the same test as s == "" / != "": add the twin so that
+			// either spelling satisfies a rule stated on the other
+			if tw, ok := emptyStringTwin(x.X, op, x.Y); ok {
+				out = append(out, tw)
+			}
 		}
 	case *ssa.Phi:
 		// `a && b` / `a || b` stored in a variable: phi [const, b].
@@ -399,4 +417,33 @@ func FactsAtBlock(b *ssa.BasicBlock) []Fact {
 	fi := info(b.Parent())
 	fi.computeFacts()
 	return fi.facts[b.Index]
+}
+
+// emptyStringTwin: for `len(s) op 0` with s a string and op in {==, !=, >, <=, <1...} return the fact `s ==/!= ""`.
+func emptyStringTwin(x ssa.Value, op token.Token, y ssa.Value) (Fact, bool) {
+	call, ok := x.(*ssa.Call)
+	if !ok {
+		return Fact{}, false
+	}
+	b, ok := call.Call.Value.(*ssa.Builtin)
+	if !ok || b.Name() != "len" || len(call.Call.Args) != 1 {
+		return Fact{}, false
+	}
+	st, ok := call.Call.Args[0].Type().Underlying().(*types.Basic)
+	if !ok || st.Info()&types.IsString == 0 {
+		return Fact{}, false
+	}
+	k, ok := y.(*ssa.Const)
+	if !ok || k.Value == nil || k.Value.Kind() != constant.Int {
+		return Fact{}, false
+	}
+	n, _ := constant.Int64Val(k.Value)
+	empty := ssa.NewConst(constant.MakeString(""), call.Call.Args[0].Type())
+	switch {
+	case n == 0 && (op == token.EQL || op == token.LEQ), n == 1 && op == token.LSS:
+		return Fact{Kind: "cmp", X: call.Call.Args[0], Op: token.EQL, Y: empty}, true
+	case n == 0 && (op == token.NEQ || op == token.GTR), n == 1 && op == token.GEQ:
+		return Fact{Kind: "cmp", X: call.Call.Args[0], Op: token.NEQ, Y: empty}, true
+	}
+	return Fact{}, false
 }
